@@ -104,7 +104,15 @@ def run_molecule(text, sched_kwargs, props=("C04", "C05", "C06", "C07", "C08"), 
                 out.exc_tb = traceback.format_exc()
                 return out
             out.mol_obj = mol
-            residues = mol.residues
+            staged = None
+            if entry == "staged":
+                # the user-level way of building a molecule block by block: the copies handed out by Molecule.elements are
+                # generated one after the other, each receiving the previous result as prefix, and the intermediate result is
+                # looked at in between (mass, SMILES, open descriptors), as somebody logging the growth would
+                staged = mol.elements
+                residues = [r for e in staged for r in e.residues]
+            else:
+                residues = mol.residues
             ast_res = ast.residues()
             audit = GenAudit(ast, ast_res, props=props, expect_complete=expect_complete)
             out.audit = audit
@@ -121,7 +129,18 @@ def run_molecule(text, sched_kwargs, props=("C04", "C05", "C06", "C07", "C08"), 
                 import io
 
                 with contextlib.redirect_stdout(io.StringIO()):  # the library prints debug output on some error paths
-                    res = mol.generate(rng=rng)
+                    if staged is not None:
+                        res = None
+                        for element in staged:
+                            res = element.generate(res, rng)
+                            try:
+                                _ = (float(res.weight), res.smiles, res.fully_generated, len(res.bond_descriptors))
+                            except SimAbort:
+                                raise
+                            except Exception:
+                                pass
+                    else:
+                        res = mol.generate(rng=rng)
                 out.result = res
             except (BudgetExceeded, DrawDiverges, WallTimeout) as exc:
                 out.exc = exc
